@@ -1597,7 +1597,7 @@ func main() {
 	defer ekit.CleanupFiles()
 	vkit.Main(&vkit.Spec{
 		Property: "C18", Level: "model_checking",
-		Rule: "one scenario = engine (core nbio.Engine / nbhttp.Engine) x configuration (epoll mode LT/ET/ONESHOT, NPoller 1-2, 0-2 fake listeners, sync read or async read with pool / goroutine-per-task / inline executor; HTTP: server executor {engine's own pool, user-supplied goroutine-per-job, user-supplied inline} x client executor {engine's own pool, user-supplied, none (SupportServerOnly)}, IOModNonBlocking / IOModMixed) x settled history of 0-3 events (accepted connection, AddConn, connection already ended before Stop by a peer reset of a write backlog / peer FIN / user Close, write backlog, Sendfile range queued behind a buffer backlog / as a file-only write queue (peer not reading) / after a drained buffer, each with its dup'ed descriptor, read deadline, pending / timed / connected async dial, UDP listener with a session; HTTP: injected, accepted or transferred connection, handled request, request answered with ReadFrom(file) to a peer that does not read, partial request) x one activity racing with the stopping call (listener hands out one more connection, user Close, peer FIN, peer data / request, callback parked on a latch, dial resolving, deadline firing, AddConn / DialAsync / Write / Sendfile by the user, datagram of a new remote) x stopping call (Stop, Shutdown(Background), Shutdown(live cancel ctx)); every interleaving within the preemption bound; non-trivial = the stopping call was started. SECOND PART (scenario name \"blocking-modes/real-sockets/history-enumeration\", a different and weaker kind of claim): bounded-exhaustive enumeration of HISTORIES, free-running schedule - one case = I/O mode (IOModBlocking, IOModMixed with the history in its blocking-first dispatch, IOModMixed with every connection of the history in the poller half, IOModNonBlocking as control) x WebSocket upgrader variant (plain / BlockingModAsyncWrite / BlockingModTrasferConnToPoller) x every event sequence of length <= 3 (thorough: 4) on <= 2 real AF_UNIX socket-pair connections over {open, keep-alive request, HTTP/1.0 request, request whose 70000-byte response is left in flight against a 4096-byte send buffer, partial request, its completion, WebSocket handshake, message echo, close handshake, peer close, peer half-close} x ending (Stop, Shutdown with a live 45 s context, all peers close then Stop); each case is executed ONCE on the real code with real goroutines and the real kernel, schedules are not enumerated",
+		Rule: "one scenario = engine (core nbio.Engine / nbhttp.Engine) x configuration (epoll mode LT/ET/ONESHOT, NPoller 1-2, 0-2 fake listeners, sync read or async read with pool / goroutine-per-task / inline executor; HTTP: server executor {engine's own pool, user-supplied goroutine-per-job, user-supplied inline} x client executor {engine's own pool, user-supplied, none (SupportServerOnly)}, IOModNonBlocking / IOModMixed) x settled history of 0-3 events (accepted connection, AddConn, connection already ended before Stop by a peer reset of a write backlog / peer FIN / user Close, write backlog, Sendfile range queued behind a buffer backlog / as a file-only write queue (peer not reading) / after a drained buffer, each with its dup'ed descriptor, read deadline, pending / timed / connected async dial, UDP listener with a session; HTTP: injected, accepted or transferred connection, handled request, request answered with ReadFrom(file) to a peer that does not read, partial request) x one activity racing with the stopping call (listener hands out one more connection, user Close, peer FIN, peer data / request, callback parked on a latch, dial resolving, deadline firing, AddConn / DialAsync / Write / Sendfile by the user, datagram of a new remote) x stopping call (Stop, Shutdown(Background), Shutdown(live cancel ctx)); every interleaving within the preemption bound; non-trivial = the stopping call was started. SECOND PART (scenario name \"blocking-modes/real-sockets/history-enumeration\", a different and weaker kind of claim): bounded-exhaustive enumeration of HISTORIES, free-running schedule - one case = I/O mode (IOModBlocking, IOModMixed with the history in its blocking-first dispatch, IOModMixed with every connection of the history in the poller half, IOModNonBlocking as control) x WebSocket upgrader variant (plain / BlockingModAsyncWrite / BlockingModTrasferConnToPoller) x every event sequence of length <= 3 (thorough: 4) on <= 2 real AF_UNIX socket-pair connections over {open, keep-alive request, HTTP/1.0 request, request whose 70000-byte response is left in flight against a 4096-byte send buffer, partial request, its completion, WebSocket handshake, message echo, close handshake, peer close, peer half-close} x ending (Stop, Shutdown with a live 45 s context, all peers close then Stop; in the blocking and the non-blocking mode also Stop / Shutdown with a connection that the pending Accept of the closed listener still returns 20 ms after the close - whoever takes it out of the listener owns it); each case is executed ONCE on the real code with real goroutines and the real kernel, schedules are not enumerated",
 		Assumptions: []string{
 			"a connection that a listener's Accept returned before listener.Close() was called is the engine's to close; the fake listener never hands out a connection after Close (what stays queued is the harness's own)",
 			"'close notification delivered before Stop returns' is judged per connection that got an open notification (OnOpen or a dial callback with nil error), counted when the close callback is entered; applied to the core engine only, as the statement says; a second close notification for the same connection is a violation too (it releases the wait group Stop relies on)",
